@@ -1,27 +1,151 @@
 // vdrive executes TLC-generated schedules on the real go-dcp code.
 //
-//	vdrive -spec core -in schedules.ndjson -out trace.ndjson
+//	vdrive -spec core -in schedules.ndjson -out trace.ndjson [-isolate]
 //
 // Input: one schedule per line ({"id":..,"cfg":{..},"steps":[{"l":..,"evs":..,"post":..}]}).
 // Output: one line per executed step with the events the real code emitted, its projected state and
 // the first difference from the specification's prediction (conformance), then a summary line.
+// With -isolate every schedule runs in a child process, so that a panic on a goroutine of the library
+// (fail-stop is a behaviour the properties talk about) ends that run only: the parent records the
+// events seen so far plus {"ev":"Died"}.
 package main
 
 import (
 	"bufio"
+	"bytes"
 	"encoding/json"
 	"flag"
 	"fmt"
 	"os"
+	"os/exec"
+	"strings"
+	"sync"
 
 	"verifharness/drivers"
+	"verifharness/sched"
 )
+
+func runOne(spec string, sch *drivers.Schedule) []drivers.TraceLine {
+	switch spec {
+	case "core":
+		return drivers.NewCoreRun(sch).Run()
+	}
+	fmt.Fprintln(os.Stderr, "unknown spec", spec)
+	os.Exit(2)
+	return nil
+}
+
+// child: one schedule on stdin, protocol lines on stdout
+func child(spec string) {
+	rd := bufio.NewReaderSize(os.Stdin, 1<<20)
+	var buf bytes.Buffer
+	_, _ = buf.ReadFrom(rd)
+	var sch drivers.Schedule
+	if err := json.Unmarshal(buf.Bytes(), &sch); err != nil {
+		fmt.Fprintln(os.Stderr, "bad schedule:", err)
+		os.Exit(2)
+	}
+	var mu sync.Mutex
+	out := bufio.NewWriter(os.Stdout)
+	put := func(v any) {
+		b, _ := json.Marshal(v)
+		mu.Lock()
+		out.Write(b)
+		out.WriteByte('\n')
+		out.Flush()
+		mu.Unlock()
+	}
+	sched.Live = func(e sched.Ev) { put(map[string]any{"live": e}) }
+	drivers.OnStep = func(begin bool, i int, tl *drivers.TraceLine) {
+		if begin {
+			put(map[string]any{"begin": i})
+		} else {
+			put(map[string]any{"line": tl})
+		}
+	}
+	runOne(spec, &sch)
+	put(map[string]any{"end": true})
+}
+
+func isolated(self, spec string, sch *drivers.Schedule) []drivers.TraceLine {
+	b, _ := json.Marshal(sch)
+	cmd := exec.Command(self, "-spec", spec, "-child")
+	cmd.Stdin = bytes.NewReader(b)
+	var stderr bytes.Buffer
+	cmd.Stderr = &stderr
+	so, _ := cmd.StdoutPipe()
+	if err := cmd.Start(); err != nil {
+		fmt.Fprintln(os.Stderr, err)
+		os.Exit(2)
+	}
+	var lines []drivers.TraceLine
+	var live []drivers.Ev
+	begun, ended := 0, false
+	sc := bufio.NewScanner(so)
+	sc.Buffer(make([]byte, 1<<20), 1<<28)
+	for sc.Scan() {
+		var m struct {
+			Begin int                `json:"begin"`
+			Live  drivers.Ev         `json:"live"`
+			Line  *drivers.TraceLine `json:"line"`
+			End   bool               `json:"end"`
+		}
+		if json.Unmarshal(sc.Bytes(), &m) != nil {
+			continue
+		}
+		switch {
+		case m.Begin > 0:
+			begun, live = m.Begin, nil
+		case m.Live != nil:
+			live = append(live, m.Live)
+		case m.Line != nil:
+			lines = append(lines, *m.Line)
+			live = nil
+			begun = 0
+		case m.End:
+			ended = true
+		}
+	}
+	_ = cmd.Wait()
+	if !ended {
+		// the process died inside step `begun`
+		msg := ""
+		for _, l := range strings.Split(stderr.String(), "\n") {
+			if strings.HasPrefix(l, "panic:") || strings.HasPrefix(l, "fatal error:") {
+				msg = l
+				break
+			}
+		}
+		i := begun
+		if i == 0 {
+			i = len(lines) + 1
+		}
+		if i >= 1 && i <= len(sch.Steps) {
+			tl := drivers.TraceLine{Run: sch.ID, I: i, L: sch.Steps[i-1].L, Post: drivers.Ev{"up": false}}
+			tl.Evs = append(live, drivers.Ev{"ev": "Died", "msg": msg})
+			tl.Diff = drivers.DiffStep(sch.Steps[i-1], tl)
+			lines = append(lines, tl)
+			for k := i + 1; k <= len(sch.Steps); k++ {
+				lines = append(lines, drivers.TraceLine{Run: sch.ID, I: k, L: sch.Steps[k-1].L, Skipped: "process is down",
+					Post: drivers.Ev{"up": false}})
+			}
+		}
+	}
+	return lines
+}
 
 func main() {
 	spec := flag.String("spec", "core", "which specification the schedules belong to")
 	in := flag.String("in", "", "schedules (ndjson)")
 	out := flag.String("out", "", "trace (ndjson)")
+	iso := flag.Bool("isolate", false, "one child process per schedule")
+	isChild := flag.Bool("child", false, "internal")
 	flag.Parse()
+	if *isChild {
+		child(*spec)
+		return
+	}
+	self, _ := os.Executable()
 	f, err := os.Open(*in)
 	if err != nil {
 		fmt.Fprintln(os.Stderr, err)
@@ -47,12 +171,10 @@ func main() {
 			os.Exit(2)
 		}
 		var lines []drivers.TraceLine
-		switch *spec {
-		case "core":
-			lines = drivers.NewCoreRun(&sch).Run()
-		default:
-			fmt.Fprintln(os.Stderr, "unknown spec", *spec)
-			os.Exit(2)
+		if *iso {
+			lines = isolated(self, *spec, &sch)
+		} else {
+			lines = runOne(*spec, &sch)
 		}
 		runs++
 		div := false
